@@ -101,6 +101,10 @@ fn main() {
             let scratch = args.get(5).cloned().unwrap_or_else(|| "/verif/.build/scratch".to_string());
             c01::run(&mut out, tier, seed, &scratch)
         }
+        "c02" => {
+            let scratch = args.get(5).cloned().unwrap_or_else(|| "/verif/.build/scratch".to_string());
+            c01::run_c02(&mut out, tier, seed, &scratch)
+        }
         "c03" => {
             let scratch = args.get(5).cloned().unwrap_or_else(|| "/verif/.build/scratch".to_string());
             c03::run(&mut out, tier, seed, &scratch)
